@@ -44,6 +44,9 @@ def run(ctx):
     ctx.rule('R12.5', 'grouping is total: no size/depth cut-off in the drivers and passes this property relies on', floor=1)
     RT2.check_no_cutoff(ctx, 'R12.5', only={'_group', 'group_period', 'group_as', 'group_aliased', 'group_identifier'})
     RT2.check_recursion_coverage(ctx, 'R12.5', only={'group_period', 'group_as', 'group_aliased', 'group_identifier', 'group_order', 'group_typecasts', 'group_arrays'})
+    from .. import rules_base as RB
+    ctx.rule('R12.B', 'base model: token-type containment, token flags / normal form, Token.match and imt behave as the abstract evaluation assumes', floor=1)
+    RB.check_base_model(ctx, 'R12.B', parts=('contains', 'flags', 'match', 'imt'))
 
 
 def check_remove_quotes(ctx):
